@@ -77,8 +77,26 @@ func (r *Result) Merge(o *Result, maxSamples, maxViolations int) {
 			r.Samples = append(r.Samples, s)
 		}
 	}
+	// Violations already attributed to an open known finding are samples: at
+	// most maxViolations of them are kept. A violation that is NOT attributed
+	// is never crowded out by those (it used to be, once 200 attributed ones
+	// had been merged: the one fresh violation of a run was silently lost).
+	known, fresh := 0, 0
+	for _, v := range r.Violations {
+		if v.KnownFinding != "" {
+			known++
+		} else {
+			fresh++
+		}
+	}
 	for _, v := range o.Violations {
-		if len(r.Violations) < maxViolations {
+		if v.KnownFinding != "" {
+			if known < maxViolations {
+				known++
+				r.Violations = append(r.Violations, v)
+			}
+		} else if fresh < 20*maxViolations {
+			fresh++
 			r.Violations = append(r.Violations, v)
 		}
 	}
